@@ -138,6 +138,12 @@ def get_ranges(headervalue, content_length):
                 # did not exist. (Normally, this means return a 200
                 # response containing the full entity)."
                 return None
+            # From rfc 7233 sec 2.1:
+            # "If the last-byte-pos value is [...] greater than or equal
+            # to the current length of the representation data, the
+            # byte range is interpreted as the remainder of the
+            # representation."
+            stop = min(stop, content_length - 1)
             # Prevent duplicate ranges. See Issue #59
             if (start, stop + 1) not in result:
                 result.append((start, stop + 1))
@@ -145,10 +151,15 @@ def get_ranges(headervalue, content_length):
             if not stop:
                 # See rfc quote above.
                 return None
-            # Negative subscript (last N bytes)
+            # Negative subscript (last N bytes), at most the whole file.
+            start = max(0, content_length - int(stop))
+            if start == content_length:
+                # A suffix-length of zero (or an empty file) selects
+                # nothing: this spec is not satisfiable.
+                continue
             # Prevent duplicate ranges. See Issue #59
-            if (content_length - int(stop), content_length) not in result:
-                result.append((content_length - int(stop), content_length))
+            if (start, content_length) not in result:
+                result.append((start, content_length))
 
     # Can we satisfy the requested Range?
     # If we have an exceedingly high standard deviation
